@@ -46,6 +46,54 @@ TEMPLATES = [
 ]
 TEMPLATE_EXPECT = {"template_in_expr": ["L|s:49"]}
 
+# (tag, annotated program, un-annotated twin): operand / member positions where an assertion, `!`, an optional marker or a
+# modifier sits inside a larger expression or declaration, so that mis-grouping or dropped members show up.  The oracle is
+# the twin's own trace on the same interpreter AND the fixed expectation.
+TWINS = [
+    ("angle_operand_mul_add", "LOG(2 * <{T}>3 + 4);", "LOG(2 * 3 + 4);", ["L|n:10"]),
+    ("angle_operand_sub_sub", "LOG(10 - <{T}>3 - 4);", "LOG(10 - 3 - 4);", ["L|n:3"]),
+    ("angle_operand_cond", 'LOG(true && <{T}>false ? "y" : "n");', 'LOG(true && false ? "y" : "n");', ["L|s:110"]),
+    ("angle_operand_cmp", "LOG(1 < <{T}>2 === true);", "LOG(1 < 2 === true);", ["L|b:true"]),
+    ("angle_in_array", "LOG([1, <{T}>2, 3]);", "LOG([1, 2, 3]);", ["L|a[n:1;n:2;n:3]"]),
+    ("angle_in_args", "function f(a: any, b: any) {{ return a * 10 + b; }} LOG(f(<{T}>1, 2));", "function f(a, b) {{ return a * 10 + b; }} LOG(f(1, 2));", ["L|n:12"]),
+    ("angle_assign_seq", "let x: any, y: any; x = <{T}>1, y = 2; LOG([x, y]);", "let x, y; x = 1, y = 2; LOG([x, y]);", ["L|a[n:1;n:2]"]),
+    ("as_operand_mul_add", "LOG(2 * (3 as {T}) + 4);", "LOG(2 * 3 + 4);", ["L|n:10"]),
+    ("as_low_precedence", "LOG((2 + 3 as {T}) * 2);", "LOG((2 + 3) * 2);", ["L|n:10"]),
+    ("as_in_cond", 'LOG((1 as {T}) ? "y" : "n");', 'LOG(1 ? "y" : "n");', ["L|s:121"]),
+    ("as_then_member", "const o = {{ a: {{ b: 5 }} }}; LOG((o as {T}).a.b + 1);", "const o = {{ a: {{ b: 5 }} }}; LOG(o.a.b + 1);", ["L|n:6"]),
+    ("nonnull_chain", "const o: any = {{ a: {{ b: [7] }} }}; LOG(o!.a!.b![0]! + 1);", "const o = {{ a: {{ b: [7] }} }}; LOG(o.a.b[0] + 1);", ["L|n:8"]),
+    ("nonnull_call", "const o: any = {{ v: 3, m() {{ return this.v; }} }}; LOG(o.m!() + o!.m());", "const o = {{ v: 3, m() {{ return this.v; }} }}; LOG(o.m() + o.m());", ["L|n:6"]),
+    ("optional_field", "class C {{ a?: {T}; b: any; }} const c = new C(); LOG([Object.keys(c).length, 'a' in c, c.a]);", "class C {{ a; b; }} const c = new C(); LOG([Object.keys(c).length, 'a' in c, c.a]);", ["L|a[n:2;b:true;U]"]),
+    ("optional_field_override", "class B {{ t: any = 30; }} class D extends B {{ t?: {T}; }} LOG(new D().t);", "class B {{ t = 30; }} class D extends B {{ t; }} LOG(new D().t);", ["L|U"]),
+    ("static_optional_field", "class C {{ static s?: {T}; static n: {T} = 1 as any; }} LOG(['s' in C, C.n]);", "class C {{ static s; static n = 1; }} LOG(['s' in C, C.n]);", ["L|a[b:true;n:1]"]),
+    ("readonly_field", "class C {{ readonly a: {T} = 1 as any; private b?: {T}; }} const c = new C(); LOG(Object.keys(c).length);", "class C {{ a = 1; b; }} const c = new C(); LOG(Object.keys(c).length);", ["L|n:2"]),
+    ("optional_method_param", "class C {{ m(a?: {T}, b: any = 2) {{ return [a, b]; }} }} LOG(new C().m());", "class C {{ m(a, b = 2) {{ return [a, b]; }} }} LOG(new C().m());", ["L|a[U;n:2]"]),
+    ("generic_call_vs_compare", "function f<P>(x: any) {{ return x; }} const a = 1, b = 2, c = 3; LOG([f<{T}>(5), a < b, (a < b) > (c as any)]);", "function f(x) {{ return x; }} const a = 1, b = 2, c = 3; LOG([f(5), a < b, (a < b) > c]);", ["L|a[n:5;b:true;b:false]"]),
+    ("generic_new", "class G<P> {{ constructor(public v: any) {{}} }} LOG(new G<{T}>(4).v);", "class G {{ constructor(v) {{ this.v = v; }} }} LOG(new G(4).v);", ["L|n:4"]),
+    ("type_args_keywords", "function f<P>(x?: any) {{ return x === undefined ? 'u' : x; }} LOG([f<void>(), f<null>(1), f<true>(2), f<null | number>(3), f<{T}>(4)]);", "function f(x) {{ return x === undefined ? 'u' : x; }} LOG([f(), f(1), f(2), f(3), f(4)]);", ["L|a[s:117;n:1;n:2;n:3;n:4]"]),
+    ("arrow_return_type", "const g = (a: any): {T} => a + 1; LOG(g(1));", "const g = (a) => a + 1; LOG(g(1));", ["L|n:2"]),
+    ("ann_destructured_param", "function f({{ a, b }}: {{ a: {T}; b: any }}, [c]: [{T}]) {{ return [a, b, c]; }} LOG(f({{ a: 1 as any, b: 2 }}, [3 as any]));", "function f({{ a, b }}, [c]) {{ return [a, b, c]; }} LOG(f({{ a: 1, b: 2 }}, [3]));", ["L|a[n:1;n:2;n:3]"]),
+    ("abstract_members", "abstract class A {{ abstract m(): {T}; protected abstract p: {T}; k() {{ return 1; }} }} class C extends A {{ m(): any {{ return 2; }} p: any = 3; }} const c = new C(); LOG([c.k(), c.m(), c.p]);", "class A {{ k() {{ return 1; }} }} class C extends A {{ m() {{ return 2; }} p = 3; }} const c = new C(); LOG([c.k(), c.m(), c.p]);", ["L|a[n:1;n:2;n:3]"]),
+    ("declare_field", "class C {{ declare d: {T}; e: any = 1; }} LOG(Object.keys(new C()));", "class C {{ e = 1; }} LOG(Object.keys(new C()));", ["L|a[s:101]"]),
+    ("index_signature_class", "class C {{ [k: string]: any; a: {T} = 1 as any; }} LOG(Object.keys(new C()));", "class C {{ a = 1; }} LOG(Object.keys(new C()));", ["L|a[s:97]"]),
+]
+
+
+def twin_family():
+    """returns jobs (annotated and twin interleaved) and meta {annotated job id: (tag, kind, type, twin job id, expected)}"""
+    jobs = []; meta = {}
+    def src(body):
+        return 'import { LOG, ERR } from "verif:host";\ntry {\n' + body + '\n} catch (e) { ERR(e); }\n'
+    for (tag, ann, twin, expect) in TWINS:
+        types = G.TYPES if "{T}" in ann else G.TYPES[:1]
+        tid = len(jobs)
+        jobs.append({"id": tid, "source": src(twin.replace("{{", "{").replace("}}", "}")), "resp": [], "mode": "immediate", "path": "/p/main.ts", "max_steps": 50000})
+        for (t, kind) in types:
+            jid = len(jobs)
+            jobs.append({"id": jid, "source": src(ann.replace("{T}", t).replace("{{", "{").replace("}}", "}")), "resp": [], "mode": "immediate", "path": "/p/main.ts", "max_steps": 50000})
+            meta[jid] = (tag, kind, t, tid, expect)
+    return jobs, meta
+
 
 def family():
     jobs = []; meta = {}
@@ -112,6 +160,20 @@ def main(tier):
             fail({tag, "type:" + kind}, {"source": j["source"], "expected": expect, "got": a, "err": got[j["id"]].get("err")},
                  "type syntax not erased: position %s with type `%s`: expected %s, got %s (%s)\n%s" % (tag, t, expect, a, got[j["id"]].get("err"), j["source"]))
     log("position x type family: %d cases, %d erased correctly" % (len(jobs), fam_ok))
+    tjobs, tmeta = twin_family()
+    tgot = M.run_jobs(exe, "prog", tjobs)
+    twin_ok = 0
+    for jid, (tag, kind, t, tid, expect) in tmeta.items():
+        a = M.impl_events(tgot[jid]); tw = M.impl_events(tgot[tid])
+        if a == tw and a == expect: twin_ok += 1
+        elif tw != expect:
+            # the un-annotated twin itself misbehaves: a C01 matter, not judged here
+            continue
+        else:
+            fail({tag, "type:" + kind}, {"source": tjobs[jid]["source"], "twin": tjobs[tid]["source"], "expected": expect, "got": a, "err": tgot[jid].get("err")},
+                 "annotated program and its un-annotated twin differ (%s, type `%s`): twin %s, annotated %s (%s)\n%s" % (tag, t, tw, a, tgot[jid].get("err"), tjobs[jid]["source"]))
+    log("annotated/twin operand and member positions: %d cases, %d identical to the twin" % (len(tmeta), twin_ok))
+    fam_ok += twin_ok
     # ---- (b) random programs x random decorations
     n = 1200 if quick else 15000
     nvar = 2 if quick else 3
@@ -156,8 +218,8 @@ def main(tier):
     if djobs: c.sample({"decorated_source": djobs[0]["source"][:700], "expected": dmeta[0][2], "decorations": sorted(dmeta[0][1])})
     c.sample({"family_case": jobs[5]["source"], "expected": ["L|n:1"]})
     c.cov["traces_validated_against_impl"] = ok + fam_ok
-    c.cov["evaluations"] = len(djobs) + len(jobs)
-    c.cov["distinct_nontrivial"] = len(djobs) + len(jobs)
+    c.cov["evaluations"] = len(djobs) + len(jobs) + len(tmeta)
+    c.cov["distinct_nontrivial"] = len(djobs) + len(jobs) + len(tmeta)
     c.cov["decoration_kinds_exercised"] = tagcount
     c.cov["exhaustive"] = True
     c.cov["rule"] = ("exhaustive: %d position kinds x %d type expressions (every type-constructor kind of the grammar sample), each with a closed-form expected trace; "
